@@ -13,7 +13,7 @@ rm -f /tmp/apply_fix.$$.diff
 if sh /verif/tools/run_tests.sh; then
   git commit -qam "$msg" && h=$(git rev-parse --short HEAD) && echo "committed $h $msg"
   echo "fixed: property=$pid $h $what" >> /verif/KNOWN_FINDINGS.txt
-  mkdir -p /verif/applied_fixes && git -C /verif mv -k "$OLDPWD/$p" /verif/applied_fixes/ 2>/dev/null || mv "$OLDPWD/$p" /verif/applied_fixes/
+  mkdir -p /verif/applied_fixes && mv "$OLDPWD/$p" /verif/applied_fixes/
 else
   echo "TESTS FAIL with $p; reverting"; git checkout -- .; exit 1
 fi
